@@ -278,6 +278,8 @@ pub struct Step<'a> {
     pub pre: &'a Obs,
     pub out: &'a Outcome,
     pub post: &'a Obs,
+    pub fpre: &'a crate::wfarm::FObs,
+    pub fpost: &'a crate::wfarm::FObs,
 }
 
 pub trait Monitor {
@@ -342,12 +344,14 @@ pub fn drive_one(
     op: &Op,
     idx: usize,
     pre: &mut Obs,
+    fpre: &mut crate::wfarm::FObs,
     monitors: &mut [Box<dyn Monitor>],
     rep: &mut Reporter,
 ) -> Outcome {
     let pre_snap = w.snapshot();
     let out = w.apply(op);
     let post = observe(w);
+    let fpost = crate::wfarm::fobserve(w);
     HISTORY.with(|h| {
         h.borrow_mut().push(json!({"i": idx, "op": op.to_json(w), "result": out.short()}))
     });
@@ -363,12 +367,15 @@ pub fn drive_one(
             pre,
             out: &out,
             post: &post,
+            fpre,
+            fpost: &fpost,
         };
         for m in monitors.iter_mut() {
             m.step(w, &s, rep);
         }
     }
     *pre = post;
+    *fpre = fpost;
     out
 }
 
